@@ -581,3 +581,106 @@ pub fn cmd_server(args: &[String]) -> i32 {
   }
   0
 }
+
+// ------------------------------------------------------------------------------------------
+// skeleton: token structure with string literals erased (and optionally identifiers), doc attributes
+// removed; plus the list of string literal values and doc lines (for recoverability checks)
+// ------------------------------------------------------------------------------------------
+
+fn skel(ts: proc_macro2::TokenStream, erase_ident: bool, out: &mut String, lits: &mut Vec<String>) {
+  use proc_macro2::TokenTree;
+  let toks: Vec<TokenTree> = ts.into_iter().collect();
+  let mut i = 0;
+  while i < toks.len() {
+    // drop `# [doc = "..."]` and `# ! [doc = "..."]`
+    if let TokenTree::Punct(p) = &toks[i] {
+      if p.as_char() == '#' {
+        let mut j = i + 1;
+        if let Some(TokenTree::Punct(b)) = toks.get(j) {
+          if b.as_char() == '!' {
+            j += 1;
+          }
+        }
+        if let Some(TokenTree::Group(g)) = toks.get(j) {
+          if g.delimiter() == proc_macro2::Delimiter::Bracket {
+            let inner: Vec<TokenTree> = g.stream().into_iter().collect();
+            if let Some(TokenTree::Ident(id)) = inner.first() {
+              if id == "doc" {
+                if let Some(TokenTree::Literal(l)) = inner.get(2) {
+                  if let Ok(syn::Lit::Str(s)) = syn::parse_str::<syn::Lit>(&l.to_string()) {
+                    lits.push(format!("doc:{}", s.value()));
+                  }
+                }
+                i = j + 1;
+                continue;
+              }
+            }
+          }
+        }
+      }
+    }
+    match &toks[i] {
+      TokenTree::Group(g) => {
+        let (o, c) = match g.delimiter() {
+          proc_macro2::Delimiter::Parenthesis => ("(", ")"),
+          proc_macro2::Delimiter::Brace => ("{", "}"),
+          proc_macro2::Delimiter::Bracket => ("[", "]"),
+          proc_macro2::Delimiter::None => ("", ""),
+        };
+        out.push_str(o);
+        skel(g.stream(), erase_ident, out, lits);
+        out.push_str(c);
+      }
+      TokenTree::Ident(id) => {
+        out.push(' ');
+        if erase_ident {
+          out.push('I');
+        } else {
+          out.push_str(&id.to_string());
+        }
+      }
+      TokenTree::Literal(l) => {
+        let t = l.to_string();
+        match syn::parse_str::<syn::Lit>(&t) {
+          Ok(syn::Lit::Str(s)) => {
+            lits.push(format!("str:{}", s.value()));
+            out.push_str(" \"S\"");
+          }
+          Ok(syn::Lit::ByteStr(_)) => out.push_str(" b\"S\""),
+          _ => {
+            out.push(' ');
+            out.push_str(&t);
+          }
+        }
+      }
+      TokenTree::Punct(p) => out.push(p.as_char()),
+    }
+    i += 1;
+  }
+}
+
+pub fn skeleton_of(path: &str) -> Value {
+  let src = match fs::read_to_string(path) {
+    Ok(s) => s,
+    Err(e) => return json!({"file": path, "error": format!("read: {e}")}),
+  };
+  let ts: proc_macro2::TokenStream = match src.parse() {
+    Ok(t) => t,
+    Err(e) => return json!({"file": path, "error": format!("lex: {e}")}),
+  };
+  if let Err(e) = syn::parse_file(&src) {
+    return json!({"file": path, "error": format!("syn: {e}")});
+  }
+  let (mut a, mut b) = (String::new(), String::new());
+  let (mut l1, mut l2) = (vec![], vec![]);
+  skel(ts.clone(), false, &mut a, &mut l1);
+  skel(ts, true, &mut b, &mut l2);
+  json!({"file": path, "skeleton": a, "skeleton_noident": b, "literals": l1})
+}
+
+pub fn cmd_skeleton(args: &[String]) -> i32 {
+  for f in files_from_args(args) {
+    println!("{}", skeleton_of(&f));
+  }
+  0
+}
